@@ -1181,6 +1181,7 @@ func main() {
 			{Name: "proto-3keys", Body: protoThreeKeySection, Bound: -1},
 			{Name: "legacy-wrapper", Body: legacySection, Bound: -1},
 			{Name: "hkdf-output-limit", Body: hkdfLimitSection, Bound: -1},
+			{Name: "unusable-non-enabled-entries", Body: unusableEntriesSection, Bound: -1},
 			{Name: "underivable-routes", Body: underivableSection, Bound: -1},
 			{Name: "prefix-conflict", Body: prefixConflictSection, Bound: -1},
 			{Name: "other-prf", Body: otherPRFSection, Bound: -1},
